@@ -150,6 +150,18 @@ theorem counted_loop_leaves_no_index (np : String → Option Prog) (F : FunTab)
     (hw : WFS a true false = true) (h : evalS np F f (.doLoop td tl a) m = .ok m') : m'.loops = m.loops :=
   Structured.counted_loop_leaves_no_index np F hFw f td tl a m m' hw h
 
+/-- `I` `J` `K` see the loops of the program that is running, i.e. the loop records **above the current context's
+    mark**: with fewer than `n + 1` of those the word fails with LoopStackUnderflow and changes nothing — however many
+    records lie below the mark (left there by a program that failed inside its loops and stays paused: the next source's
+    context starts above them; seeded change C01/10 indexed the whole stack) -/
+theorem loop_index_sees_only_its_own_loops (n : Nat) (m : Mach) (h : m.loops.length - m.ctx.lsLen ≤ n) :
+    runProg (wordCounter n) m = (.err .loopStackUnderflow, m) := by
+  have : (m.loops.take (m.loops.length - m.ctx.lsLen))[n]? = none := by
+    apply List.getElem?_eq_none
+    simp only [List.length_take]
+    omega
+  simp only [wordCounter, runProg, this]
+
 /-- every statement that completes leaves the loop stack as deep as it found it -/
 theorem completion_keeps_loops (np : String → Option Prog) (F : FunTab)
     (hFw : ∀ addr body ts, F addr = some (body, ts) → WFS body false false = true)
